@@ -170,7 +170,7 @@ def evsOf (k : String) (ws : List String) : List LifeSpec.Ev :=
             else [.closingSeen 9])
          else if op == "store" && a == "1" then [.userClose] else [])
       else []
-  | "X" :: _ => [.fdClose]
+  | "X" :: _ => [.fdClose (k == "detacher")]
   | "G" :: _ :: rest =>
       match rest with
       | ["closecb", i, u] => [.closecb (toNat i) (toNat ((u.splitOn "=").getLastD "0")) (k == "hup")]
